@@ -415,6 +415,38 @@ func (e *FnExec) call(st *State, instr ssa.Instruction, c *ssa.CallCommon, res s
 		return
 	}
 	key, sig, _ := e.calleeKey(c)
+	if key == "" && e.con != nil && e.con.Guards != nil {
+		// call through a function value: check the declared guard of that value
+		name := ""
+		switch v := c.Value.(type) {
+		case *ssa.Parameter:
+			name = v.Name()
+		case *ssa.FreeVar:
+			name = v.Name()
+		case *ssa.UnOp:
+			if fv, ok := v.X.(*ssa.FreeVar); ok {
+				name = fv.Name()
+			} else if a, ok := v.X.(*ssa.Alloc); ok {
+				name = a.Comment
+			}
+		}
+		if name != "" {
+			e.guardN[name]++
+			gk := fmt.Sprintf("%s#%d", name, e.guardN[name])
+			if g, ok := e.con.Guards[gk]; ok {
+				env := e.specEnv(st, instr.Pos())
+				t, err := env.boolExpr(g)
+				if err != nil {
+					e.errf("%v", err)
+				} else {
+					e.assert(st, "guardcall", t, instr.Pos(), "call through "+gk+" only when "+g.Text, gk)
+					e.guardSeen[gk] = true
+				}
+			} else {
+				e.errf("call through function value %s has no guardcall clause %s", name, gk)
+			}
+		}
+	}
 	var args []*Term
 	if c.IsInvoke() {
 		args = append(args, e.term(st, c.Value))
@@ -641,7 +673,20 @@ func (e *FnExec) applyContract(st *State, key string, con *Contract, sig *types.
 			rt := rs.At(k).Type()
 			var t *Term
 			if con.Pure && rs.Len() == 1 {
-				t = UF("pure!"+key, sortOf(rt), args...)
+				uargs, uname := args, "pure!"+key
+				if sig.Variadic() && len(args) > 0 {
+					// flatten a variadic slice of known small length into its elements
+					last := args[len(args)-1]
+					if k, ok := SLen(last).IsInt(); ok && k.IsInt64() && k.Int64() <= 6 {
+						et := sig.Params().At(sig.Params().Len() - 1).Type().(*types.Slice).Elem()
+						uargs = append([]*Term{}, args[:len(args)-1]...)
+						for i := int64(0); i < k.Int64(); i++ {
+							uargs = append(uargs, e.load(pre, IdxLoc(SArr(last), Add(SOff(last), IntLit(i))), et))
+						}
+						uname = fmt.Sprintf("%s/%d", uname, k.Int64())
+					}
+				}
+				t = UF(uname, sortOf(rt), uargs...)
 			} else {
 				t = Fresh("r_"+lastName(key), sortOf(rt))
 			}
@@ -657,6 +702,9 @@ func (e *FnExec) applyContract(st *State, key string, con *Contract, sig *types.
 			e.vals[res] = rvals[0]
 		case rs.Len() > 1:
 			e.vals[res] = Val{Tuple: rvals}
+		}
+		for k := 0; k < rs.Len(); k++ {
+			e.callResults[fmt.Sprintf("%s/%d", lastName(key), k)] = specVar{rvals[k].T, rs.At(k).Type()}
 		}
 	}
 	for _, en := range con.Ensures {
